@@ -37,7 +37,7 @@ CHECKS = {
         "++ 00000000, the blocked file is well-blocked with that stream as payload, and reading returns exactly the records "
         "(Props/C03.lean). Tied to /repo by differential execution on all 6000 single-record lengths x both formats, "
         "boundary multi-record files, special contents and random lists through class API, write_many/with, and the "
-        "list/bytes convenience functions, with an independent layout oracle. In addition a SOURCE TIE: harness/pytrans.py translates the current Python text of Block1014.write / finalise (methods, self made explicit) and of the one-shot functions block_1014 / unblock_1014 into Lean (Gen/Src.lean) on every run and lean/Cardutil/SrcTie/Block.lean, OneShot.lean prove, for all inputs, that the translation equals the model (and restate the property for the translated code: C04_source, C04_source_oneshot); when the source changes so that this no longer checks, the check runs its thorough generators before answering (the correspondence remains the deciding tie).",
+        "list/bytes convenience functions, with an independent layout oracle. In addition a SOURCE TIE: harness/pytrans.py translates the current Python text of Block1014.write / finalise, VbsWriter.write / write_many / close / __exit__ and VbsReader.__next__ (methods, self made explicit) into Lean (Gen/Src.lean) on every run and lean/Cardutil/SrcTie/Block.lean, Writer.lean, Reader.lean, RoundTrip.lean prove, for all inputs, that the translation equals the model and restate the property for the translated writer AND reader (C03_source_roundtrip, C03_source_write_many_roundtrip: write the records one by one or through write_many, close, iterate the reader — the records come back, then end of data); when the source changes so that this no longer checks, the check runs its thorough generators before answering (the correspondence remains the deciding tie).",
         "Trusted: Lean kernel; standard axioms; hand-written models validated by the correspondence; struct.pack('>I') as 4 "
         "base-256 digits (< 2^32); MAX_VBS_RECORD_LENGTH re-translated from /repo each run.",
         "DESIGN.md §8 C03"),
@@ -103,7 +103,13 @@ CHECKS = {
         "length, and every encoder/decoder pair satisfying dec(enc m) = ok(expected m) (C01's conclusion), IpmReader over "
         "the IpmWriter output returns exactly the expected messages then end of data, VBS and 1014 (Props/C06.lean). Tied "
         "to /repo by differential execution over 1..60/300 heterogeneous messages x 3 codecs x 2 formats x packaged/"
-        "generated configurations, and 2-4 interleaved reader/writer instances against the per-instance model.",
+        "generated configurations, and 2-4 interleaved reader/writer instances against the per-instance model. In addition "
+        "a SOURCE TIE: harness/pytrans.py translates the current Python text of IpmWriter.write (the message encoder an "
+        "external function, then the base class's write through super()), IpmWriter.write_many, VbsWriter.write / close and "
+        "VbsReader.__next__ / IpmReader.__next__ into Lean (Gen/Src.lean) on every run and lean/Cardutil/SrcTie/IpmRoundTrip.lean "
+        "proves C06_source_roundtrip for the translated writer AND reader, for any encoder and decoder that are inverse on the "
+        "messages written; when the source changes so that this no longer checks, the check runs its thorough generators "
+        "(time-boxed) before answering (the correspondence remains the deciding tie).",
         "Trusted: as C01/C03; instance isolation is established by the correspondence (Python object model), not by a theorem.",
         "DESIGN.md §8 C06"),
     'C07': (
